@@ -456,6 +456,12 @@ func (c *Check) expiredRequestRules(prefix string) {
 	if len(u.ER.Args) == 2 && gRequest != nil {
 		id := u.ER.Args[0]
 		okBind = u.ER.Args[1].String() == fmt.Sprintf("(res 0 (%s %s))", gRequest.Name, id) && id.ContainsOp("github.com/tendermint/tm-db.Iterator.Value")
+		// (the id may be converted between byte-slice types on its way into the getter)
+		if v := stripConv(u.ER.Args[1]); !okBind && v.Op == "res" && len(v.A) == 2 && v.A[0].IsAt("0") {
+			if g := stripConv(v.A[1]); g.Op == gRequest.Name && len(g.A) == 1 && stripConv(g.A[0]).Eq(stripConv(id)) {
+				okBind = id.ContainsOp("github.com/tendermint/tm-db.Iterator.Value")
+			}
+		}
 	}
 	c.req(okBind, prefix+".expiry.binding", unitConstruct(u.ER.Iter, "per-marker-binding"), u.ER.Iter.Body.Pos(),
 		"the expired-request handler is invoked with (id, GetRequest(id)) for the id decoded from each scanned marker: "+fmtTerms(u.ER.Args))
